@@ -58,9 +58,11 @@ def _plain(value) -> str:
 
 
 class Canon:
-    def __init__(self, rename: dict | None = None, sort_commutative: bool = False) -> None:
+    def __init__(self, rename: dict | None = None, sort_commutative: bool = False,
+                 strict_dummies: bool = False) -> None:
         self.rename = rename or {}
         self.sort_commutative = sort_commutative
+        self.strict_dummies = strict_dummies
         self.memo: dict[int, str] = {}
         self.keep: list = []  # keep objects alive so that ids stay unique
         self.dummies: dict = {}
@@ -109,6 +111,8 @@ class Canon:
 
     def _d(self, obj) -> str:  # noqa: C901, PLR0911, PLR0912
         if isinstance(obj, sp.Dummy):
+            if self.strict_dummies:  # models: a Dummy is a different symbol in every process
+                return _h("Dummy!", obj.name, str(obj.dummy_index), self._assumptions(obj))
             return _h("Dummy", str(self._dummy_index(obj)), self._assumptions(obj))
         if isinstance(obj, sp.Symbol):
             name = self.rename.get(obj.name, obj.name)
@@ -145,8 +149,9 @@ class Canon:
         return _qualname(cls)
 
 
-def digest(obj, rename: dict | None = None, sort_commutative: bool = False) -> str:
-    c = Canon(rename, sort_commutative)
+def digest(obj, rename: dict | None = None, sort_commutative: bool = False,
+           strict_dummies: bool = False) -> str:
+    c = Canon(rename, sort_commutative, strict_dummies)
     c.number_dummies(obj)
     return c.d(obj)
 
